@@ -3,17 +3,22 @@
    Ser/RoundTripProofs.v.
 
    Fragment proved here ([frag], [class_frag], [canon]): Number/Integer/Float/String/Boolean with any
-   constraints, Enum over literals, Enum over an enum class by name and by value, Array/Deque of the
-   fragment, Map from plain scalars to the fragment, nested structures to any depth, classes with and
-   without _ignore_none / _additional_properties / defaults / __validate__ hooks; instances whose
-   attributes are declared fields listed in declaration order (instance.__dict__ order is not observable).
-   Outside [frag] (AnyOf, Set, Tuple, positional items, Anything, date/time fields) the executable model
-   and the differential correspondence apply, and the full statement is in fact FALSE there
+   constraints, Enum over literals, Enum over an enum class by name and by value (members of falsy value included),
+   Array/Deque/Set of the fragment, Tuple (positional or homogeneous) of plain scalars, Map from plain scalars to
+   the fragment, nested structures to any depth,
+   AnyOf/Optional over ARBITRARY options holding a value of an option of the fragment that distinguishes the
+   options (every earlier option rejects the value on the way out and its document on the way in, with whatever
+   exception), classes with and without _ignore_none / _additional_properties / defaults / __validate__ hooks,
+   compact single-field wrappers; instances whose attributes are declared fields listed in declaration order
+   (instance.__dict__ order is not observable).
+   Outside [frag] (ImmutableSet, Tuple of non-scalars, positional Array items, Anything, DecimalNumber, date/time
+   fields) the executable model
+   and/or the differential on the implementation apply, and the full statement is in fact FALSE there
    (C05_refuted_required_none, and the defects listed in known_findings.json). *)
 From Coq Require Import ZArith NArith String List Bool.
 Import ListNotations.
 From TP Require Import Base.PyVal Base.PyEq Fields.FieldAst Fields.SetChain Fields.Doc Struct.Instance
-  Ser.Json Ser.Serialize Ser.Deserialize Ser.RoundTripProofs.
+  Ser.Json Ser.Serialize Ser.Deserialize Ser.RoundTripProofs Ser.SerOps Gen.SerSites Ser.SerTieProofs.
 Local Open Scope string_scope.
 
 Section C05.
@@ -25,26 +30,17 @@ Section C05.
   (* Serializer(x).serialize() of a canonical valid instance of a fragment class does not raise and
      is built from dict/list/str/int/float/bool/None only, with scalar keys. *)
   Theorem C05_pure : forall n c a,
-      canon re_match e ens n (PStruct c a) ->
+      canon re_match e ens fl n (PStruct c a) ->
       exists j, serialize re_match e ens n false (PStruct c a) = Ok j /\ json_pure j = true.
-  Proof.
-    intros n c a H. destruct (rt_struct re_match e ens fl n _ H) as (kv & H1 & H2 & _).
-    exists (PDict kv). split; [|exact H2].
-    unfold serialize. destruct n; [destruct H|]. destruct H as (cd & Hf & _). rewrite Hf. exact H1.
-  Qed.
+  Proof. exact (c05_pure re_match e ens fl). Qed.
 
   (* ... and Deserializer(type(x)).deserialize of that value, whatever keep_undefined and the global
      defaults, returns x itself. *)
   Theorem C05_roundtrip : forall n c a,
-      canon re_match e ens n (PStruct c a) ->
+      canon re_match e ens fl n (PStruct c a) ->
       exists j, serialize re_match e ens n false (PStruct c a) = Ok j /\
                 forall ku, deserialize re_match e ens fl n ku c j = Ok (PStruct c a).
-  Proof.
-    intros n c a H. destruct (rt_struct re_match e ens fl n _ H) as (kv & H1 & _ & H3).
-    exists (PDict kv). destruct n; [destruct H|]. pose proof H as H'. destruct H' as (cd & Hf & _). split.
-    - unfold serialize. rewrite Hf. exact H1.
-    - intro ku. unfold deserialize. rewrite Hf. exact (H3 c a eq_refl _).
-  Qed.
+  Proof. exact (c05_roundtrip re_match e ens fl). Qed.
 
   (* the value-level statement the instance-level one is built from: every stored value of a fragment
      declaration — in particular every falsy one: 0, 0.0, "", False, [], {}, deque([]) — serializes to a
@@ -53,44 +49,103 @@ Section C05.
       (forall c a, canon' (PStruct c a) ->
          exists kv, recS (PStruct c a) = Ok (PDict kv) /\ json_pure (PDict kv) = true /\
                     forall ku, recD ku c (PDict kv) = Ok (PStruct c a)) ->
-      forall f v, frag f = true -> wfv re_match e ens canon' f v -> py_truthy v = false ->
+      forall f v, frag f = true -> wfv re_match e ens canon' recS recD f v -> py_truthy v = false ->
       exists j, ser_val re_match e ens recS f v = Ok j /\ json_pure j = true /\ j <> PNone /\
                 forall ku ign, deser_val re_match e ens recD ku ign f j = Ok v.
-  Proof. intros canon' recS recD Hrec f v Hf Hw _. exact (rt_val re_match e ens canon' recS recD Hrec f Hf v Hw). Qed.
+  Proof. exact (c05_falsy re_match e ens). Qed.
+
+  (* AnyOf (Optional included): a value of an option g of the fragment that every option listed before g rejects — on
+     the way out (its _validate or serializer raises) and on the way in (its deserializer raises on the serialized
+     value), with ANY exception class — is serialized as g serializes it and is read back as itself, whatever
+     follows g in the list. *)
+  Theorem C05_anyof : forall (canon' : pyval -> Prop) recS recD,
+      (forall c a, canon' (PStruct c a) ->
+         exists kv, recS (PStruct c a) = Ok (PDict kv) /\ json_pure (PDict kv) = true /\
+                    forall ku, recD ku c (PDict kv) = Ok (PStruct c a)) ->
+      forall pre g post v,
+        frag g = true -> wfv re_match e ens canon' recS recD g v -> validate_weak re_match e g v = Ok tt ->
+        Forall (fun gk => skips_ser re_match e ens recS gk v) pre ->
+        (forall j, ser_val re_match e ens recS g v = Ok j -> Forall (fun gk => skips_deser re_match e ens recD gk j) pre) ->
+        exists j, ser_val re_match e ens recS g v = Ok j /\
+                  ser_val re_match e ens recS (FAnyOf (pre ++ g :: post)) v = Ok j /\ json_pure j = true /\
+                  forall ku ign, deser_val re_match e ens recD ku ign (FAnyOf (pre ++ g :: post)) j = Ok v.
+  Proof. exact (c05_anyof re_match e ens). Qed.
+
+  (* a member of an enum declared with serialization_by_value=True is serialized as its VALUE — also when the
+     value is falsy (0, "", False, 0.0) — never as its name, and is read back as the member *)
+  Theorem C05_enum_by_value : forall recS recD cls members n x,
+      enum_by_value ens cls = true -> enum_wf ens cls members (PEnum cls n x) ->
+      ser_val re_match e ens recS (FEnumCls cls members) (PEnum cls n x) = Ok x /\
+      forall ku ign, deser_val re_match e ens recD ku ign (FEnumCls cls members) x = Ok (PEnum cls n x).
+  Proof. exact (enum_by_value_rt re_match e ens). Qed.
+
+  (* compact single-field wrappers: serialize(x, compact=True) is the bare serialized field, and with compact
+     deserialization switched on it is read back as x — provided the serialized field is not a JSON object *)
+  Theorem C05_compact : forall n cn a c fd,
+      canon re_match e ens fl (S n) (PStruct cn a) -> find_class e cn = Some c -> compact_eligible c = Some fd ->
+      exists v j,
+        a = [(fd_name fd, v)] /\
+        ser_val re_match e ens (ser_struct re_match e ens n) (fd_field fd) v = Ok j /\
+        serialize re_match e ens (S n) true (PStruct cn a) = Ok j /\ json_pure j = true /\ j <> PNone /\
+        (df_compact fl = true -> (forall kv, j <> PDict kv) ->
+         forall ku, deserialize re_match e ens fl (S n) ku cn j = Ok (PStruct cn a)).
+  Proof. exact (rt_compact re_match e ens fl). Qed.
 End C05.
+
+(* ---- ties to the source text (Gen/SerSites.v is regenerated from /repo on every run) *)
+
+(* the `except` clauses of deserialize_multifield_wrapper / serialize_multifield_wrapper swallow every exception: this
+   is what "an earlier option rejects, with whatever exception" in C05_anyof rests on *)
+Theorem C05_src_option_dispatch_catches_everything :
+  forall x, catches h_deser_multifield x = true /\ catches h_ser_multifield x = true.
+Proof. exact src_option_dispatch_catches_everything. Qed.
+
+(* the item loops of deserialize_list_like and the field loop of construct_fields_map catch TypeError/ValueError only *)
+Theorem C05_src_item_errors_are_te_ve :
+  forall x, named_exn x = true -> model_exn x = false ->
+    catches h_list_like_item_0 x = is_te_ve x /\ catches h_list_like_item_1 x = is_te_ve x /\
+    catches h_fields_map x = is_te_ve x.
+Proof. exact src_item_errors_are_te_ve. Qed.
+
+(* Enum.serialize as written in enum.py IS the model's ser_enum_member, on every member, by name and by value *)
+Theorem C05_src_enum_serialize :
+  forall by_value cls n x, Enum_serialize true by_value (PEnum cls n x) = ser_enum_member by_value (PEnum cls n x).
+Proof. exact src_enum_serialize_member. Qed.
+
+Theorem C05_src_enum_serialize_falsy :
+  forall cls n x, json_value_ok x = true -> py_truthy x = false -> Enum_serialize true true (PEnum cls n x) = Ok x.
+Proof. exact src_enum_serialize_falsy. Qed.
+
+(* the full statement (every valid instance of every class over the property's vocabulary) is false of the faithful
+   model: F17, a required field whose declaration admits None and that holds None *)
+Theorem C05_refuted_required_none : ~ C05_statement.
+Proof. exact c05_refuted_required_none. Qed.
 
 Print Assumptions C05_pure.
 Print Assumptions C05_roundtrip.
 Print Assumptions C05_falsy.
-
-(* ---- the full statement (every valid instance of every class over the property's field vocabulary)
-   is false of the faithful model: F17 *)
-Definition C05_statement : Prop :=
-  forall re_match e ens fl n c a cd,
-    find_class e c = Some cd -> struct_ok re_match e cd a = true ->
-    exists j, serialize re_match e ens n false (PStruct c a) = Ok j /\ json_pure j = true /\
-              exists x', deserialize re_match e ens fl n None c j = Ok x' /\ py_eq (PStruct c a) x' = true.
-
-Definition opt_str : field := FAnyOf [FString no_strc; FNone].
-Definition cls_A : classdef :=
-  {| c_name := s2p "A"; c_ancestors := []; c_fields := [ {| fd_name := s2p "a"; fd_field := opt_str; fd_immutable := false; fd_default := None |} ];
-     c_required := [s2p "a"]; c_additional := true; c_ignore_none := false; c_immutable := false; c_hook := HookNone |}.
-
-Theorem C05_refuted_required_none : ~ C05_statement.
-Proof.
-  intro H.
-  destruct (H (fun _ _ => true) [cls_A] [] {| df_ignore_invalid := true; df_compact := false |} 3%nat
-              (s2p "A") [(s2p "a", PNone)] cls_A eq_refl eq_refl) as (j & Hs & _ & x' & Hd & _).
-  vm_compute in Hs. inversion Hs; subst j. vm_compute in Hd. discriminate.
-Qed.
+Print Assumptions C05_anyof.
+Print Assumptions C05_enum_by_value.
+Print Assumptions C05_compact.
 Print Assumptions C05_refuted_required_none.
+Print Assumptions C05_src_option_dispatch_catches_everything.
+Print Assumptions C05_src_item_errors_are_te_ve.
+Print Assumptions C05_src_enum_serialize.
+Print Assumptions C05_src_enum_serialize_falsy.
 
 (* ---- non-vacuity: a nested instance with falsy values at every position satisfies [canon], and the
    theorem's conclusion computes *)
+Definition ex_fl : dflags := {| df_ignore_invalid := true; df_compact := true |}.
 Definition ex_ens : enums :=
   [ {| en_name := s2p "ColorV"; en_by_value := true;
-       en_members := [(s2p "RED", PNum (NInt 1)); (s2p "GREEN", PNum (NInt 2)); (s2p "BLUE", PStr (s2p "b"))] |} ].
+       en_members := [(s2p "RED", PNum (NInt 1)); (s2p "GREEN", PNum (NInt 2)); (s2p "BLUE", PStr (s2p "b"))] |};
+    {| en_name := s2p "PrioV"; en_by_value := true;
+       en_members := [(s2p "NONE", PNum (NInt 0)); (s2p "LOW", PNum (NInt 1))] |} ].
 Definition colorv : field := FEnumCls (s2p "ColorV") [(s2p "RED", PNum (NInt 1)); (s2p "BLUE", PStr (s2p "b"))].
+Definition priov : field := FEnumCls (s2p "PrioV") [(s2p "NONE", PNum (NInt 0)); (s2p "LOW", PNum (NInt 1))].
+Definition int_ : field := FNumber KInteger SAny no_numc.
+(* an option that rejects a shorter list with IndexError (not TypeError/ValueError), then the option of the value *)
+Definition tup_or_arr : field := FAnyOf [FTuple [int_; FBoolean] false; FSeqEach SeqList int_ no_sizec false; FNone].
 Definition fdecl_ (n : string) (f : field) (d : option pyval) : fdecl :=
   {| fd_name := s2p n; fd_field := f; fd_immutable := false; fd_default := d |}.
 Definition cls_Inner : classdef :=
@@ -103,31 +158,49 @@ Definition cls_Outer : classdef :=
                   fdecl_ "xs" (FSeqEach SeqList (FNumber KFloat SAny no_numc) no_sizec false) None;
                   fdecl_ "m" (FMapKV (FString no_strc) (FSeqEach SeqDeque FBoolean no_sizec false) no_sizec) None;
                   fdecl_ "c" colorv None;
+                  fdecl_ "p" priov None;
+                  fdecl_ "t" tup_or_arr None;
+                  fdecl_ "st" (FSet false (Some int_) no_sizec) None;
+                  fdecl_ "tp" (FTuple [int_; FString no_strc] false) None;
                   fdecl_ "b" FBoolean (Some (PBool false))];
      c_required := [s2p "n"; s2p "c"]; c_additional := true; c_ignore_none := false; c_immutable := false;
      c_hook := HookNeverNone (s2p "xs") |}.
-Definition ex_env : env := [cls_Inner; cls_Outer].
+Definition cls_Wrap : classdef :=
+  {| c_name := s2p "Wrap"; c_ancestors := []; c_fields := [fdecl_ "p" priov None];
+     c_required := [s2p "p"]; c_additional := false; c_ignore_none := false; c_immutable := false; c_hook := HookNone |}.
+Definition ex_env : env := [cls_Inner; cls_Outer; cls_Wrap].
 Definition ex_x : pyval :=
   PStruct (s2p "Outer")
     [ (s2p "n", PStruct (s2p "Inner") [(s2p "i", PNum (NInt 0)); (s2p "s", PStr [])]);
       (s2p "xs", PList [PNum (NFlt 0 0)]);
       (s2p "m", PDict [(PStr [], PDeque []); (PStr (s2p "k"), PDeque [PBool false])]);
       (s2p "c", PEnum (s2p "ColorV") (s2p "BLUE") (PStr (s2p "b")));
+      (s2p "p", PEnum (s2p "PrioV") (s2p "NONE") (PNum (NInt 0)));
+      (s2p "t", PList [PNum (NInt 0)]);
+      (s2p "st", PSet false [PNum (NInt 0); PNum (NInt 1)]);
+      (s2p "tp", PTuple [PNum (NInt 0); PStr []]);
       (s2p "b", PBool false) ].
+Definition ex_w : pyval := PStruct (s2p "Wrap") [(s2p "p", PEnum (s2p "PrioV") (s2p "NONE") (PNum (NInt 0)))].
 
 Example C05_nonvacuous :
-  (match ex_x with PStruct c a => canon (fun _ _ => true) ex_env ex_ens 2 (PStruct c a) | _ => False end) /\
+  (match ex_x with PStruct c a => canon (fun _ _ => true) ex_env ex_ens ex_fl 2 (PStruct c a) | _ => False end) /\
   serialize (fun _ _ => true) ex_env ex_ens 2 false ex_x =
     Ok (PDict [ (PStr (s2p "n"), PDict [(PStr (s2p "i"), PNum (NInt 0)); (PStr (s2p "s"), PStr [])]);
                 (PStr (s2p "xs"), PList [PNum (NFlt 0 0)]);
                 (PStr (s2p "m"), PDict [(PStr [], PList []); (PStr (s2p "k"), PList [PBool false])]);
                 (PStr (s2p "c"), PStr (s2p "b"));
+                (PStr (s2p "p"), PNum (NInt 0));
+                (PStr (s2p "t"), PList [PNum (NInt 0)]);
+                (PStr (s2p "st"), PList [PNum (NInt 0); PNum (NInt 1)]);
+                (PStr (s2p "tp"), PList [PNum (NInt 0); PStr []]);
                 (PStr (s2p "b"), PBool false) ]) /\
   (forall j, serialize (fun _ _ => true) ex_env ex_ens 2 false ex_x = Ok j ->
-             deserialize (fun _ _ => true) ex_env ex_ens {| df_ignore_invalid := true; df_compact := false |} 2 None
-                         (s2p "Outer") j = Ok ex_x).
+             deserialize (fun _ _ => true) ex_env ex_ens ex_fl 2 None (s2p "Outer") j = Ok ex_x) /\
+  (* the earlier option of field t rejects the document [0] with IndexError, not with TypeError/ValueError *)
+  deser_val (fun _ _ => true) ex_env ex_ens (deser_struct (fun _ _ => true) ex_env ex_ens ex_fl 1) true false
+            (FTuple [int_; FBoolean] false) (PList [PNum (NInt 0)]) = Raise IndexError.
 Proof.
-  split; [|split].
+  split; [|split; [|split]].
   - cbn [ex_x]. unfold canon. exists cls_Outer.
     repeat (split; [vm_compute; reflexivity|]).
     repeat constructor.
@@ -152,7 +225,46 @@ Proof.
       cbn [wfv fd_field fdecl_ snd colorv]. exists (s2p "BLUE"), (PStr (s2p "b")).
       repeat split; vm_compute; reflexivity.
     + eexists. split; [reflexivity|]. split; [|reflexivity].
+      cbn [wfv fd_field fdecl_ snd priov]. exists (s2p "NONE"), (PNum (NInt 0)).
+      repeat split; vm_compute; reflexivity.
+    + (* the AnyOf field: option 1 (Array[Integer]) holds [0]; option 0 (a positional Tuple) rejects it both ways *)
+      eexists. split; [reflexivity|]. split; [|reflexivity].
+      cbn [wfv fd_field fdecl_ snd tup_or_arr]. split; [discriminate|]. exists 1%nat. split.
+      * cbn [nth_sat]. split; [reflexivity|]. split.
+        { cbn [wfv int_]. exists [PNum (NInt 0)]. split; [reflexivity|].
+          repeat constructor; try (vm_compute; reflexivity); discriminate. }
+        split; [vm_compute; reflexivity|].
+        intros j Hj. vm_compute in Hj. inversion Hj; subst j. cbn [firstn]. apply Forall_cons; [|apply Forall_nil].
+        intro ku. exists IndexError. split; [destruct ku; vm_compute; reflexivity | reflexivity].
+      * cbn [firstn]. apply Forall_cons; [|apply Forall_nil]. exists TypeError. split; vm_compute; reflexivity.
+    + (* Set[Integer] holding {0, 1} *)
+      eexists. split; [reflexivity|]. split; [|reflexivity].
+      cbn [wfv fd_field fdecl_ snd int_]. exists [PNum (NInt 0); PNum (NInt 1)]. split; [reflexivity|].
+      split; [|split; vm_compute; reflexivity].
+      repeat constructor; try (vm_compute; reflexivity); discriminate.
+    + (* Tuple[Integer, String] holding (0, "") *)
+      eexists. split; [reflexivity|]. split; [|reflexivity].
+      cbn [wfv fd_field fdecl_ snd int_]. exists [PNum (NInt 0); PStr []]. split; [reflexivity|].
+      cbn [tuple_wf]. unfold wfv_plain. repeat split; try (vm_compute; reflexivity); try discriminate. constructor.
+    + eexists. split; [reflexivity|]. split; [|reflexivity].
       cbn [wfv fd_field fdecl_ snd]. repeat split; try (vm_compute; reflexivity); discriminate.
   - vm_compute. reflexivity.
   - intros j Hj. vm_compute in Hj. inversion Hj; subst j. vm_compute. reflexivity.
+  - vm_compute. reflexivity.
+Qed.
+
+(* the compact form of a wrapper around a by-value enum whose member has the falsy value 0 *)
+Example C05_compact_nonvacuous :
+  (match ex_w with PStruct c a => canon (fun _ _ => true) ex_env ex_ens ex_fl 1 (PStruct c a) | _ => False end) /\
+  compact_eligible cls_Wrap = Some (fdecl_ "p" priov None) /\
+  serialize (fun _ _ => true) ex_env ex_ens 1 true ex_w = Ok (PNum (NInt 0)) /\
+  deserialize (fun _ _ => true) ex_env ex_ens ex_fl 1 None (s2p "Wrap") (PNum (NInt 0)) = Ok ex_w.
+Proof.
+  split; [|split; [|split]]; [|vm_compute; reflexivity ..].
+  cbn [ex_w]. unfold canon. exists cls_Wrap.
+  repeat (split; [vm_compute; reflexivity|]).
+  repeat constructor.
+  eexists. split; [reflexivity|]. split; [|reflexivity].
+  cbn [wfv fd_field fdecl_ snd priov]. exists (s2p "NONE"), (PNum (NInt 0)).
+  repeat split; vm_compute; reflexivity.
 Qed.
